@@ -50,8 +50,13 @@ def main():
             if pkgdir:
                 os.makedirs(os.path.join(wt, pkgdir), exist_ok=True)
                 shutil.copy(f, os.path.join(wt, pkgdir, os.path.basename(f)))
-        cmd_local = cmd.replace('/tmp/seed_%s' % pid, wt).replace('<checkout>', wt)
-        cmd_local = re.sub(r'cp (?!/)(\S+_test\.go)', 'cp %s/\\1' % d, cmd_local)
+        # the demonstration files have been copied already: drop the author's own mkdir/cp/cd prefix
+        cmd_local = cmd
+        while True:
+            c2 = re.sub(r'^\s*(mkdir|cp|cd)\s[^&]*&&\s*', '', cmd_local)
+            if c2 == cmd_local:
+                break
+            cmd_local = c2
         rc1, o1 = sh(cmd_local, cwd=wt, timeout=1800)
         out['demo_with_mutant_rc'] = rc1
         out['demo_with_mutant_tail'] = o1[-400:]
